@@ -18,6 +18,10 @@ META = {
     "level_note": "Trusted: rustc MIR, tmfacts, walker. 'Stays down until its physical release' over whole histories is the composition of these per-site facts with C19, on paper.",
 }
 
+# --- additions to the level description (rules added after the first version)
+META['level_text'] += " The batch rows are read per push site whatever loop or iterator search (find) selects the mapping; remove_mapping's still-used scan must see every remaining mapping."
+# --- end additions
+
 ANM = MOD + "add_new_mapping"
 NP = MOD + "newly_press"
 NR = MOD + "newly_release"
